@@ -320,7 +320,10 @@ def correspond(pid, spec, tier, seed):
                 stats["distinct"].add(hashlib.sha1(c.encode()).digest()[:10])
             if a2 != m2:
                 stats["disagreements"].append({"profile": prof, "index": i, "case": c, "impl": a, "model": m, "tag": tag})
-            if i < len(expect) and expect[i] not in ("-", "") and expect[i] != a:
+            if i < len(expect) and expect[i].startswith("!"):
+                stats["oracle_failures"].append({"profile": prof, "index": i, "case": c, "impl": a, "model": m, "tag": tag,
+                                                 "oracle": expect[i][1:]})
+            elif i < len(expect) and expect[i] not in ("-", "") and expect[i] != a:
                 stats["oracle_failures"].append({"profile": prof, "index": i, "case": c, "impl": a, "model": m, "tag": tag,
                                                  "oracle": "implementation output differs from what the generator intended: " + decode_line(expect[i], 3000)})
             if oracle:
